@@ -113,14 +113,15 @@ CholCases(z) == {[sub |-> "chol", n |-> Len(A), A |-> A, X |-> XMat(p, Len(A), d
                  A \in SpdMats(z), p \in 1..2, d \in 2..3}
 BicgCases(z) == {[sub |-> "bicg", n |-> Len(A), A |-> A, X |-> XMat(p, Len(A), 1), B |-> MulRows(A, XMat(p, Len(A), 1)), d |-> 1] :
                  A \in SpdMats(z) \cup NonSymMats(z), p \in {1, 3}}
-\* (a zero right-hand side is left out: the first BiCGSTAB step is then 0/0 and the solver panics "NaN detected" by design)
-NonZero(B) == \E i \in 1..Len(B) : \E c \in 1..Len(B[i]) : B[i][c] # 0
+\* a zero right-hand side (x = 0 is the exact solution and the initial guess) is a valid system like any other
+ZeroRhs(z) == {[sub |-> "bicg", n |-> Len(A), A |-> A, X |-> [i \in 1..Len(A) |-> <<0>>], B |-> [i \in 1..Len(A) |-> <<0>>], d |-> 1] :
+               A \in SpdMats(z)}
 \* scaled identities: the first half step is already exact (the solver's exact-convergence exit), and the
 \* solver is then asked for further iterations (iteration limit only, no tolerance)
 BicgItCases(z) == {[sub |-> "bicgit", n |-> n, A |-> GraphMat("none", n, 1, 1, s), X |-> XMat(p, n, 1),
                     B |-> MulRows(GraphMat("none", n, 1, 1, s), XMat(p, n, 1)), d |-> 1] :
                    n \in 1..z, s \in {1, 2, 4}, p \in {1, 2, 3}}
-LinsolveCases(z) == LsCases(z) \cup CholCases(z) \cup {c \in BicgCases(z) \cup BicgItCases(z) : NonZero(c.B)}
+LinsolveCases(z) == LsCases(z) \cup CholCases(z) \cup BicgCases(z) \cup BicgItCases(z) \cup ZeroRhs(z)
 
 ---------------------------------------------------------------------------
 \* objectives: value of the cell vector z; see KernelJudge.G
